@@ -346,7 +346,9 @@ func genHeap(r *rand.Rand, s *scriptWriter, ids []string, length int) {
 	for j := 0; j < length; j++ {
 		x, y := pick(r, regs), pick(r, regs)
 		out := pick(r, []string{"c", "d"})
-		switch r.Intn(6) {
+		switch r.Intn(7) {
+		case 6:
+			s.op("CopyElem", "a", x, "k", r.Intn(1<<10))
 		case 0:
 			s.op("Copy", "a", x, "out", out)
 		case 1:
